@@ -206,7 +206,8 @@ Section StepProps.
     hs_mono n (fst (handle_snapshot id m n)) /\ n_role (fst (handle_snapshot id m n)) = Follower.
   Proof.
     intros m n Hr. unfold handle_snapshot.
-    destruct (m_index m <=? n_commit n) eqn:E1; [split; [apply hs_mono_refl|exact Hr]|]. apply Nat.leb_gt in E1.
+    destruct ((m_index m <=? n_commit n) || m_reject m) eqn:E1; [split; [apply hs_mono_refl|exact Hr]|].
+    apply orb_false_iff in E1 as [E1 _]. apply Nat.leb_gt in E1.
     destruct (term_at (n_log n) (m_index m) =? m_logterm m).
     - destruct (commit_to (n_log n) (n_commit n) (m_index m)) as [c|] eqn:Ec; [|split; [apply hs_mono_refl|exact Hr]].
       cbn [fst]. split; [|exact Hr].
